@@ -123,6 +123,73 @@ pub fn wide_case(seed: u64, ex: &Exec, ctx: (String, String)) -> Result<WideStat
     Ok(WideStats { rounds, leaves: leaves as u64, buckets_popped: hits1[bp] - hits0[bp] })
 }
 
+/// Part `visible`: a hub fans an event out to 3-5 leaves on as many worker
+/// threads; every handler bumps a `Relaxed` counter; right after each
+/// `process_event` returns `Ok` the driver thread reads the counter with a
+/// `Relaxed` load. "Every computation triggered by the call has finished"
+/// includes that its effects happen-before the return, so the load must see
+/// all increments (coherence); no harness lock or log sits between the
+/// handlers and the read, which would otherwise provide the ordering itself.
+/// Threads are held back by bursts of yields at the idle hand-off (a worker
+/// before it clears its activity bit, the caller before its idle check) so
+/// that the caller observes the idle pool without having parked.
+pub fn visible_case(seed: u64) -> Result<u64, (String, String)> {
+    use crate::rec::ExecCfg;
+    use nexosim::verif_hooks::site;
+    let mut rng = Rng::new(seed);
+    let k = rng.range(3, 5) as usize;
+    let cfg = ExecCfg { seed: rng.next(), delay_mode: 3, focus: vec![site::MT_WORKER_BEFORE_DEACTIVATE, site::MT_RUN_BEFORE_IDLE_CHECK, *rng.pick(&[site::MT_WORKER_DEACTIVATED, site::MT_RUN_ACTIVATED, site::MT_WORKER_LAST_BEFORE_IDLE])], p_focus: 400, p_other: 0, ..Default::default() };
+    rec::reset(&cfg);
+    let counter = Arc::new(AtomicU64::new(0));
+    let seen: Arc<Vec<AtomicU64>> = Arc::new((0..k).map(|_| AtomicU64::new(0)).collect());
+    let mut fan = Fan { out: Output::default() };
+    let mut init = SimInit::with_num_threads(k);
+    for i in 0..k {
+        let mb: Mailbox<Leaf> = Mailbox::new();
+        fan.out.connect(Leaf::hit, &mb);
+        let mut fwd = Output::default();
+        let _ = &mut fwd;
+        init = init.add_model(Leaf { id: i, seen: seen.clone(), fwd, local: 0 }, mb, format!("leaf{}", i));
+    }
+    let fmb: Mailbox<Fan> = Mailbox::new();
+    let faddr = fmb.address();
+    init = init.add_model(fan, fmb, "fan");
+    let (mut simu, _s) = init.init(MonotonicTime::EPOCH).map_err(|e| ("C04/visible-init-failed".to_string(), format!("{:?}", e)))?;
+    let steps = if cfg!(miri) { 6 } else { 300 };
+    for step in 1..=steps {
+        let r = simu.process_event(Fan::fire, step, &faddr);
+        let visible: u64 = seen.iter().map(|a| a.load(Relaxed)).sum();
+        if let Err(e) = r {
+            return Err(("C04/false-failure-on-deadlock-free-bench".into(), format!("step {}: {:?}", step, e)));
+        }
+        if visible != step * k as u64 {
+            return Err(("C04/effects-not-visible-at-return".into(), format!("step {}: process_event returned Ok but only {} of {} handler effects (Relaxed counters bumped by the handlers) are visible to the calling thread right after the return: the return does not happen-after every handler", step, visible, step * k as u64)));
+        }
+    }
+    let _ = counter;
+    drop(simu);
+    Ok(steps * k as u64)
+}
+
+pub fn run_visible(rep: &mut Report, opts: &Opts) {
+    let n = if cfg!(miri) { 4 } else { opts.n(160, 4000) };
+    let base = h2(opts.seed, 0xC04_7151);
+    for case in 0..n {
+        if !opts.mine(case) {
+            continue;
+        }
+        rep.evaluations += 1;
+        match visible_case(h2(base, case)) {
+            Ok(nh) => {
+                rep.count("visible_handler_effects_checked_at_return", nh);
+                rep.distinct.insert(h2(base, case));
+            }
+            Err((sig, detail)) => rep.violation(sig, format!("[visible] {}", detail), opts.replay_args("visible", case)),
+        }
+    }
+    rep.extra.insert("probe_sites_hit_and_delayed".into(), crate::rec::coverage_json());
+}
+
 pub fn run(rep: &mut Report, opts: &Opts) {
     let n = if cfg!(miri) { 1 } else { opts.n(96, 3000) };
     let base = h2(opts.seed, 0xC04_71DE);
